@@ -65,8 +65,10 @@ def dfs(run, bound=None, prefix0=()):
         ch = Chooser(prefix)
         res = run(ch)
         if len(ch.trace) < len(prefix):
-            raise NondeterminismError('execution ended before its prefix (%d<%d)'
-                                      % (len(ch.trace), len(prefix)))
+            e = NondeterminismError('execution ended before its prefix (%d<%d)'
+                                    % (len(ch.trace), len(prefix)))
+            e.prefix = prefix
+            raise e
         yield ch, res
         tr = ch.trace
         devs = 0
